@@ -566,6 +566,14 @@ class Extractor:
                 else:
                     self.assign(t, ("index", val, num(k)), env)
             return
+        if isinstance(target, (ast.Subscript, ast.Attribute)):
+            base = target.value
+            while isinstance(base, (ast.Subscript, ast.Attribute)):
+                base = base.value
+            if isinstance(base, ast.Name) and base.id not in env:
+                # a store into a module-level object (a cache, a registry): an effect; the values computed here do not change
+                self.__dict__.setdefault("effects", []).append(norm_text(target))
+                return
         raise Unsupported(f"assignment target {type(target).__name__}")
 
     def run(self, params: Optional[List[str]] = None):
@@ -619,10 +627,22 @@ def mk_cmp(op, a, b):
             pass
     if a[0] in CONST_HEADS and b[0] not in CONST_HEADS and op in SWAP_OP:
         op, a, b = SWAP_OP[op], b, a
+    if a[0] == "ite" and b[0] in CONST_HEADS and _const_table(a):
+        # comparing a choice among constants with a constant: decided per alternative
+        return ite(a[1], mk_cmp(op, a[2], b), mk_cmp(op, a[3], b))
     if op in ("in", "not in") and b[0] == "tuple" and 1 <= len(b[1]) <= 8:
         parts = tuple(mk_cmp("==" if op == "in" else "!=", a, x) for x in b[1])
         return mk_bool("or" if op == "in" else "and", parts)
     return ("cmp", op, a, b)
+
+
+def _const_table(t, d=0) -> bool:
+    """A conditional all of whose leaves are constants (e.g. the level returned by an if-chain)."""
+    if d > 8:
+        return False
+    if t[0] == "ite":
+        return _const_table(t[2], d + 1) and _const_table(t[3], d + 1)
+    return t[0] in CONST_HEADS
 
 
 def mk_bool(k, vals):
@@ -1329,6 +1349,29 @@ def guards_cover(guards, ref, policy=None) -> bool:
 
 def specialise(t, f):
     """Partial evaluation: f maps a node to a literal (or returns it unchanged); conditionals decided by literals fold away."""
+    return transform(t, f)
+
+
+def inline_self_properties(t, project: Project, fi: FuncInfo, depth: int = 0):
+    """self.<name> where <name> is a @property of the method's own class: replaced by the property's closed form."""
+    if fi.cls is None or depth > 4:
+        return t
+    from .resolve import is_property
+    cls_q = f"{fi.module.name}.{fi.cls}"
+
+    def f(n):
+        if n[0] == "attr" and n[1] == ("var", "self"):
+            q = f"{cls_q}.{n[2]}"
+            pf = project.funcs.get(q)
+            if pf is not None and is_property(pf) and pf is not fi:
+                try:
+                    ex = Extractor(project, pf, pf.node, Scope(project, pf), local_prefix=pf.qualname + ".<locals>.")
+                    _env, ret = ex.run()
+                except Unsupported:
+                    return n
+                if ret is not None:
+                    return inline_self_properties(ret, project, pf, depth + 1)
+        return n
     return transform(t, f)
 
 
